@@ -44,8 +44,8 @@ ExpFp(mode, e) == IF mode = "none" THEN "none"
 Init ==
   /\ cfg \in [fpC : FpCs, fpS : FpSs, idC : IdCs, idS : IdSs]
   /\ ep = [e \in E |->
-             IF e = "C" THEN InitEp("C", cfg.idC, IF cfg.idC = "certM" THEN "dhM" ELSE "dhC", "rC", ExpFp(cfg.fpC, "C"))
-                        ELSE InitEp("S", cfg.idS, IF cfg.idS = "certM" THEN "dhM" ELSE "dhS", "rS", ExpFp(cfg.fpS, "S"))]
+             IF e = "C" THEN InitEp("C", cfg.idC, IF cfg.idC = "certM" THEN "dhMc" ELSE "dhC", "rC", ExpFp(cfg.fpC, "C"))
+                        ELSE InitEp("S", cfg.idS, IF cfg.idS = "certM" THEN "dhMs" ELSE "dhS", "rS", ExpFp(cfg.fpS, "S"))]
   /\ outbox = <<>>
   /\ net = [d \in Dir |-> <<>>]
   /\ held = [d \in Dir |-> <<>>]
@@ -227,7 +227,9 @@ Converge    == <>[](ep["C"].st = "Connected" /\ ep["S"].st = "Connected")
 \* C02
 DhOf(cert) == CASE cert = "certS" -> "dhS" [] cert = "certC" -> "dhC" [] cert = "certM" -> "dhM" [] OTHER -> "dhX"
 Auth       == \A e \in E : AuthOf(ep[e])
+AuthClient == AuthOf(ep["C"])
 AuthKey    == \A e \in E : (ep[e].st = "Connected" /\ ep[e].expFp # "none") => ep[e].peerDh = DhOf(ep[e].expFp)
+AuthKeyClient == (ep["C"].st = "Connected" /\ ep["C"].expFp # "none") => ep["C"].peerDh = DhOf(ep["C"].expFp)
 FailClosed == \A e \in E : FailClosedOf(ep[e])
 
 ---------------------------------------------------------------------------
@@ -238,6 +240,7 @@ Settled == Quiescent /\ \A e \in E : ep[e].started /\ ep[e].st # "Handshaking"
 OutRec == [ops |-> ops, cfg |-> cfg,
            final |-> [e \in E |-> ep[e].st],
            keysEq |-> (ep["C"].keys = ep["S"].keys),
+           auth |-> [e \in E |-> AuthOf(ep[e])],
            appGot |-> [e \in E |-> ep[e].appGot]]
 
 EmitSched   == (ops' # ops) => PrintT(<<"SCHED", ToJson([ops |-> ops', cfg |-> cfg])>>)
